@@ -1,14 +1,14 @@
 (* C15  Clipping, masking and opacity only remove paint, and only where specified.
    Property theorems only.  Per-pixel model of crates/resvg/src/clip.rs / mask.rs / render.rs; the blend
-   modes and buffer initialisation are the SOURCE-DERIVED constants of Gen/PixelTables.v (regenerated
+   modes and buffer initialisation are the SOURCE-DERIVED constants of Gen/ClipTables.v (its own generated file: edits of the filter kernels do not touch this closure) (regenerated
    from /repo on every run); tiny-skia's apply_mask scaling and luminance coefficient are modelled exactly
    (u8 / binary32) and compared exhaustively with the real crate by the harness. *)
 From RV Require Import Model.Base.
 From RV Require Import Model.F32.
-From RV Require Import Gen.PixelTables.
-From RV Require Import Model.Pixel.
+From RV Require Import Gen.ClipTables.
+From RV Require Import Model.Blend8.
 From RV Require Import Model.ClipMask.
-From RV Require Import Proofs.PixelBase.
+From RV Require Import Proofs.ByteSweep.
 From RV Require Import Proofs.ClipMask.
 Local Open Scope Q_scope.
 
